@@ -3,6 +3,7 @@ package main
 // Symbolic interpreter over go/ssa.
 
 import (
+	"os"
 	"sync"
 	"fmt"
 	"go/constant"
@@ -97,6 +98,10 @@ type Interp struct {
 	tainted      string
 	sched        *schedState
 	goInline     bool
+	seenTerm     map[*Term]bool
+	constrained  map[string]bool
+	knownFalse   map[*Term]bool
+	knownTrue    map[*Term]bool
 	noMerge      bool
 	makeBound    int
 	abstract     map[string]bool
@@ -112,6 +117,8 @@ type codecRec struct {
 	kind     string
 	enc, dec []*Term
 }
+
+var debugSites = os.Getenv("GOSYM_SITES") != ""
 
 type obsRec struct {
 	Name string
@@ -773,15 +780,84 @@ func (in *Interp) assume(c *Term) {
 	if c.IsFalse() {
 		panic(abortPath{"assume false"})
 	}
+	in.noteFacts(c)
 	if in.ex.replaying() {
-		in.sol.Assert(c)
+		in.assertPC(c)
 		return
 	}
-	in.sol.Assert(c)
-	if r := in.sol.Check(); r == Unsat {
+	in.assertPC(c)
+	in.sol.Tag = "assume"
+	r := in.sol.Check()
+	in.sol.Tag = ""
+	if r == Unsat {
 		panic(abortPath{"assumption infeasible"})
 	} else if r == Unknown {
 		in.taint("solver unknown on assume @ " + in.posString())
+	}
+}
+
+// assertPC adds t to the solver context and records which variables are now constrained.
+func (in *Interp) assertPC(t *Term) {
+	in.sol.Assert(t)
+	in.markVars(t)
+}
+
+func (in *Interp) markVars(t *Term) {
+	if in.seenTerm == nil {
+		in.seenTerm = map[*Term]bool{}
+		in.constrained = map[string]bool{}
+	}
+	if in.seenTerm[t] {
+		return
+	}
+	in.seenTerm[t] = true
+	if t.Op == OpVar {
+		in.constrained[t.Name] = true
+		return
+	}
+	for _, a := range t.Args {
+		in.markVars(a)
+	}
+}
+
+// freeLiteral reports whether c is a test `var == const` (or its negation) on a variable no assertion mentions:
+// both outcomes are then feasible without asking the solver.
+func (in *Interp) freeLiteral(c *Term) bool {
+	if c.Op == OpNot {
+		c = c.Args[0]
+	}
+	if c.Op != OpEq {
+		return false
+	}
+	a, b := c.Args[0], c.Args[1]
+	if a.Op != OpVar {
+		a, b = b, a
+	}
+	if a.Op != OpVar || !b.IsConst() {
+		return false
+	}
+	return !in.constrained[a.Name]
+}
+
+// noteFacts remembers asserted disequalities / equalities so that later identical tests need no solver query.
+func (in *Interp) noteFacts(c *Term) {
+	switch c.Op {
+	case OpAnd:
+		for _, a := range c.Args {
+			in.noteFacts(a)
+		}
+	case OpNot:
+		if e := c.Args[0]; e.Op == OpEq {
+			if in.knownFalse == nil {
+				in.knownFalse = map[*Term]bool{}
+			}
+			in.knownFalse[e] = true
+		}
+	case OpEq:
+		if in.knownTrue == nil {
+			in.knownTrue = map[*Term]bool{}
+		}
+		in.knownTrue[c] = true
 	}
 }
 
@@ -790,18 +866,49 @@ func (in *Interp) branch(c *Term) bool {
 	if c.IsConst() {
 		return c.C == 1
 	}
+	if in.knownFalse[c] {
+		return false
+	}
+	if in.knownTrue[c] {
+		return true
+	}
+	if c.Op == OpNot && in.knownFalse[c.Args[0]] {
+		return true
+	}
+	if c.Op == OpNot && in.knownTrue[c.Args[0]] {
+		return false
+	}
 	if d, ok := in.ex.next(); ok {
 		// replaying a recorded decision
 		if d.val == 1 {
-			in.sol.Assert(c)
+			in.assertPC(c)
+			in.noteFacts(c)
 			return true
 		}
-		in.sol.Assert(in.tb.Not(c))
+		in.assertPC(in.tb.Not(c))
+		in.noteFacts(in.tb.Not(c))
 		return false
 	}
+	if in.freeLiteral(c) {
+		in.ex.push(decision{val: 1, more: true, kind: dBranch})
+		in.assertPC(c)
+		in.noteFacts(c)
+		return true
+	}
 	in.sh.stats.add("feasibility", 2)
+	if debugSites {
+		in.sh.stats.add("site "+in.posString()+" "+c.String(), 1)
+	}
+	in.sol.Tag = "branch"
+	defer func() { in.sol.Tag = "" }()
 	rt := in.sol.CheckWith(c)
-	rf := in.sol.CheckWith(in.tb.Not(c))
+	rf := Sat
+	if rt != Unsat {
+		rf = in.sol.CheckWith(in.tb.Not(c))
+	}
+	defer func() {
+		// facts for the side taken (only reached on normal return)
+	}()
 	if rt == Unknown || rf == Unknown {
 		in.taint("solver unknown on branch @ " + in.posString())
 	}
@@ -809,15 +916,18 @@ func (in *Interp) branch(c *Term) bool {
 	switch {
 	case tOK && fOK:
 		in.ex.push(decision{val: 1, more: true, kind: dBranch})
-		in.sol.Assert(c)
+		in.assertPC(c)
+		in.noteFacts(c)
 		return true
 	case tOK:
 		// not a real decision: no fork
-		in.sol.Assert(c)
+		in.assertPC(c)
+		in.noteFacts(c)
 		in.ex.push(decision{val: 1, kind: dBranch})
 		return true
 	case fOK:
-		in.sol.Assert(in.tb.Not(c))
+		in.assertPC(in.tb.Not(c))
+		in.noteFacts(in.tb.Not(c))
 		in.ex.push(decision{val: 0, kind: dBranch})
 		return false
 	}
@@ -843,7 +953,7 @@ func (in *Interp) concretize(t *Term) uint64 {
 	}
 	if d, ok := in.ex.next(); ok {
 		if !d.fresh {
-			in.sol.Assert(in.tb.Eq(t, in.tb.Const(t.W, d.val)))
+			in.assertPC(in.tb.Eq(t, in.tb.Const(t.W, d.val)))
 			return d.val
 		}
 		// backtracked into this decision: pick a new value excluding earlier ones
@@ -860,6 +970,8 @@ func (in *Interp) concretizeFresh(t *Term, excluded []uint64) uint64 {
 		ex = append(ex, in.tb.Ne(t, in.tb.Const(t.W, v)))
 	}
 	in.sh.stats.add("feasibility", 2)
+	in.sol.Tag = "concretize"
+	defer func() { in.sol.Tag = "" }()
 	in.sol.Push()
 	for _, e := range ex {
 		in.sol.Assert(e)
@@ -880,11 +992,11 @@ func (in *Interp) concretizeFresh(t *Term, excluded []uint64) uint64 {
 	}
 	v := vals[0]
 	// is there another value?
-	in.sol.Assert(in.tb.Ne(t, in.tb.Const(t.W, v)))
+	in.assertPC(in.tb.Ne(t, in.tb.Const(t.W, v)))
 	more := in.sol.Check() != Unsat
 	in.sol.Pop()
 	in.ex.push(decision{val: v, more: more, kind: dConcretize, excluded: append([]uint64{}, excluded...)})
-	in.sol.Assert(in.tb.Eq(t, in.tb.Const(t.W, v)))
+	in.assertPC(in.tb.Eq(t, in.tb.Const(t.W, v)))
 	return v
 }
 
